@@ -66,7 +66,13 @@ fn decode(tape: &[u32]) -> Case {
     let class_b = t.pick(5) as u32;
     let seed = t.raw();
     let k = t.usize(1, 5);
-    let scalar = match t.pick(6) {
+    let scalar = match t.pick(7) {
+        6 => {
+            // a neighbour (1-3 ulp) of 1, 2, 0.5 or -1
+            let base = [1.0f32, 2.0, 0.5, -1.0][t.pick(4)];
+            let k = t.int(-3, 3) as i32;
+            f32::from_bits((base.to_bits() as i32 + k) as u32)
+        }
         0 => 1.0,
         1 => 0.5,
         2 => t.f32_in(-4.0, 4.0),
